@@ -105,6 +105,11 @@ TYPE_CASES = {
 }
 
 
+WRONG_LISTS = {"int": ["1:x:5", "1:2:3", "8000:8080:", "1:2.5:4", ":", "1::2", "a:b", "1;2", "1,,2", ":1", ",", "1,"], "float": ["1:2", "1,,2", "1.5,", "1.0:2.0"],
+               "datetime": ["2013-04-28 05:16,", "2013-04-28,x"], "timedelta": ["1h,x", "1h,2 fortnights"]}
+# not demanded: '1:' (an empty upper bound is read as the lower one) and an empty time-delta text (zero) - the code's reading, and no clause of the statement says otherwise
+
+
 @unit("C44", "_Option.parse+set", [(M, "_Option.parse"), (M, "_Option.set"), (M, "_Option._parse_bool"), (M, "_Option._parse_timedelta"), (M, "_Option._parse_datetime")])
 def u_option(c):
     import tornado.options as O
@@ -132,6 +137,14 @@ def u_option(c):
         out = c.call(c.fn(M, "_Option.parse"), opt, (text + "," + wrong_text) if multiple else wrong_text)
         c.only_raises(out, (O.Error, ValueError, TypeError, Exception))
         c.oblige("post/a-text-of-the-wrong-type-raises-and-is-not-reported", out.raised and calls == [])
+        if multiple:
+            accepted = []
+            for bad_list in WRONG_LISTS.get(tname, []):
+                o2 = c.call(c.fn(M, "_Option.parse"), O._Option("o", type=typ, multiple=True, callback=calls.append), bad_list)
+                if not o2.raised:
+                    accepted.append((bad_list, o2.value))
+            c.values = {"accepted": accepted}
+            c.oblige("post/a-malformed-list-or-range-raises", not accepted and calls == [])
     elif route == "set":
         out = c.call(c.fn(M, "_Option.set"), opt, value)
         c.only_raises(out, ())
@@ -335,6 +348,17 @@ def standin(tier, seed):
                     if raised is None:
                         known = "F-20" if tname == "bool" else None
                         fail("%s option given the text %r by %s: accepted as %r instead of being rejected" % (tname, text, route, p.opt), known=known, type=tname, text=text, route=route)
+        for tname, texts in WRONG_LISTS.items():
+            for text in texts:
+                p = O.OptionParser()
+                p.define("opt", type=TYPES[tname], multiple=True)
+                evals += 1
+                try:
+                    with contextlib.redirect_stderr(io.StringIO()):
+                        p.parse_command_line(["prog", "--opt=" + text])
+                    fail("multiple %s option given the malformed list %r: accepted as %r" % (tname, text, p.opt), type=tname, text=text)
+                except Exception:
+                    nontriv.add(("wrong-list", tname, text))
         for tname, exprs in WRONG_PY.items():
             for expr in exprs:
                 for multiple in (False, True):
